@@ -43,6 +43,27 @@ class BEntry(Entry):
         return self.items + super().source()
 
 
+def divrem_algorithm(lhs_hi, rhs_lo, rhs_hi):
+    """Which bounded_int_div_rem algorithm the Sierra specialisation selects (None: unsupported).
+    Only used to avoid generating instantiations the compiler rejects."""
+    import math
+    lu, ru = lhs_hi + 1, rhs_hi + 1
+    lim = 2**128
+    q_max = (lu - 1) // max(rhs_lo, 1)
+    if q_max >= lim or ru > lim + 1:
+        return None
+    if ru * lim < P:
+        return "rhs"
+    if (q_max + 1) * lim < P:
+        return "quotient"
+    r = math.isqrt(lu)
+    if r * r != lu:
+        r += 1
+    if r * lim < P and r < lim:
+        return "lhs"
+    return None
+
+
 def bounded_entries():
     E = []
     k = 0
@@ -71,6 +92,17 @@ def bounded_entries():
             ((0, 2**200), (2**123 + 5, 2**128)), ((0, 2**64 - 1), (1, 2**64 - 1)),
             ((0, 10), (1, 1)), ((5, 2**128 - 1), (2**64, 2**65)),
             ((0, 2**245), (2**125, 2**128))]
+    # grid around the algorithm-selection thresholds (rhs.upper * 2^128 vs P, q_max * 2^128 vs P,
+    # sqrt(lhs.upper) * 2^128 vs P)
+    import math
+    seen = set(divs)
+    for lh in (2**64, 2**123, 2**125 - 1, 2**128 - 1, 2**130, 2**200, 2**245, 2**250, 2**251):
+        for rh in (2**100, 2**123 - 1, 2**123 + 2**122, 2**125 - 1, 2**127, 2**128 - 1, 2**128):
+            for rl in (1, max(rh // 2, 1), max(rh - 3, 1)):
+                if divrem_algorithm(lh, rl, rh) is None or ((0, lh), (rl, rh)) in seen:
+                    continue
+                seen.add(((0, lh), (rl, rh)))
+                divs.append(((0, lh), (rl, rh)))
     for j, ((a, b), (c, d)) in enumerate(divs):
         ta, tb = bi(a, b), bi(c, d)
         qt, rt = bi(a // d, b // c), bi(0, d - 1)
